@@ -27,6 +27,9 @@ ASSUMPTIONS = ['"afterwards" = after the generator has been finalised (reference
                'finalisation is CPython reference counting: a state that only comes back after a gc.collect() is a violation (the unchanged tree never needs one)',
                'reference interpreters A and B agree on the answer sequence',
                'programs contain no assert/retract (side-effect free, as the property states for re-runs)']
+RULE_ADDED = (' Added after the rounds of independently written changes (DESIGN.md 12.2): ' +
+              'host values as terms (NaN, Decimal NaN, an object equal to nothing, None, 0, empty values): bare unification ended in every way and queries over dynamic facts holding them; a garbage collection pass needed to restore the state is a violation.')
+RULE = RULE + RULE_ADDED
 
 
 class Boom(Exception):
